@@ -7,6 +7,7 @@ Requests
       -> (result (finished b) (supported b) (ins nmap) (outs nmap) (annos ((id set)…)) (clos nmap) (miss q…))
   c19.check <env> <graph> <table> (reach…) <ins> <outs> <clos> (W…) (S…)
       -> (check (fix b) (cover b) (taint b) (miss q…))
+  c19.taint <env> <graph> <table> (reach…) <ins> (seeds…)  -> (taint (least x…) (miss q…))
 The resolver is replayed from <table>; a query the table does not contain is answered with the marker type
 `other "MISS<query>"`, which surfaces in the output and is reported under `miss` so that the harness can add the entry. -/
 namespace Malt.Drv.C19
@@ -246,6 +247,21 @@ def handlers : List (String × (List Sexp → String)) := [
         .list [.atom "ins", nmapSexp visited st.ins], .list [.atom "outs", nmapSexp visited st.outs],
         .list [.atom "annos", .list (annos.map fun p => .list [Sexp.ofNat p.1, setSexp (some p.2)])],
         .list [.atom "clos", nmapSexp closIds st.clos],
+        missSexp misses]))),
+  ("c19.taint", fun a => run do
+      let [e, g, t, reach, ins, seeds] := a | none
+      let env ← env? e
+      let G ← graph? g
+      let tbl ← table? t
+      let R := replay tbl
+      let reach ← nats? reach
+      let ins ← nmap? ins
+      let seeds ← strs? seeds
+      let misses := reach.flatMap fun i => match G.find i with
+        | some n => tmapMisses (transfer R env n.node (ins.get i))
+        | none => []
+      pure (toString (Sexp.list [.atom "taint",
+        .list [.atom "least", Sexp.ofStrs (leastTaint R env G reach ins (seeds.length + env.bound.length + 2) seeds)],
         missSexp misses]))),
   ("c19.check", fun a => run do
       let [e, g, t, reach, ins, outs, clos, w, s] := a | none
